@@ -39,7 +39,7 @@ probe.close_db_conn()
 NSIDS = [0, 10, 828, 14, 4, 12, 100, 118, 8]
 BASES = ["Foo", "foo bar", "Über/sub", "a:b", "x/documentation", "y/documentation/ja", "z/testcases", "Templates in use",
          "Modules/list", "Category tree", "A&B <c>", "ﬁn", "q/testcases/2", "Main:Foo", "T/doc"]
-BODIES = ["text", "  lead and trail  \n", "<noinclude>doc</noinclude>body", "a &amp; <b> \"q\" 'z'", "", "line1\n\nline2\n",
+BODIES = ["k</includeonly>z", "p< includeonly >q</ includeonly >", "text", "  lead and trail  \n", "<noinclude>doc</noinclude>body", "a &amp; <b> \"q\" 'z'", "", "line1\n\nline2\n",
           "<!-- c -->x<includeonly>i</includeonly>", "{{t|a=b}}\t\ttabs"]
 MODELS = ["wikitext", "Scribunto", "json", "css", "javascript", "sanitized-css"]
 
@@ -125,6 +125,10 @@ for di in range(ndumps):
     ctx.db_conn.commit()
     ctx.get_page.cache_clear()
     evaluations += 1
+    if rng.random() < 0.5:
+        # add-if-missing style lookups before anything is ingested
+        ctx.page_exists(NS[TEMPLATE_NS] + ":!", TEMPLATE_NS)
+        ctx.page_exists("Foo", 0)
     try:
         with quiet_stdout():
             parse_dump_xml(ctx, path, selected)
